@@ -41,6 +41,8 @@ struct NodeRt {
     directive: Arc<parking_lot::Mutex<Directive>>,
     gate: Arc<tokio::sync::Notify>,
     reached: Arc<std::sync::atomic::AtomicBool>,
+    gate_fetch: Arc<std::sync::atomic::AtomicBool>,
+    split: Option<tokio::task::JoinHandle<(Tracker, Option<Result<verif::ExchangeReport, anyhow::Error>>)>>,   // a repair in progress (repair-begin .. repair-end)
     tracker: Tracker,      // the poller's keyspace tracker of this node (per-peer entries inside)
     poller: Option<verif::Poller>,   // the real replication cycle service of this node, when a case started it
     _server: Server,
@@ -93,13 +95,13 @@ async fn make_node(id: u8, _n: usize) -> NodeRt {
     let clock = Clock::new(id);
     let fs = FaultyStore::new(Arc::new(MemStore::default()));
     let directive = fs.next.clone();
-    let (gate, reached) = (fs.gate.clone(), fs.reached.clone());
+    let (gate, reached, gate_fetch) = (fs.gate.clone(), fs.reached.clone(), fs.gate_fetch.clone());
     let group = KeyspaceGroup::new(Arc::new(fs), clock.clone()).await;
     let network = RpcNetwork::default();
     let (addr, server) = crate::rpc::listen_free().await;
     server.add_service(ConsistencyService::new(group.clone(), network.clone()));
     server.add_service(ReplicationService::new(group.clone()));
-    NodeRt { id, addr, clock, group, network, directive, gate, reached, tracker: Tracker::default(), poller: None, _server: server }
+    NodeRt { id, addr, clock, group, network, directive, gate, reached, gate_fetch, split: None, tracker: Tracker::default(), poller: None, _server: server }
 }
 
 fn fmt_pairs(mut v: Vec<(u64, HLCTimestamp)>) -> String {
@@ -462,6 +464,56 @@ impl Domain for ClusterDomain {
                 // a tick in progress finishes its exchanges
                 rt.block_on(async { tokio::time::sleep(Duration::from_millis(300)).await });
                 "ok".into()
+            },
+            // ---- C01: an exchange that is NOT atomic with respect to the peer: the peer's store changes between the state snapshot
+            // (and the difference computed from it) and the document fetch
+            "repair-begin" => {
+                // repair-begin <j> <i> <removals_first 0|1>: node j starts repairing from node i; node i's next document fetch
+                // (Storage::multi_get behind FetchDocs) is held at a gate; returns when the fetch has reached the gate or the
+                // exchange has finished without one
+                use std::sync::atomic::Ordering;
+                let (j, i) = (u(1), u(2));
+                let rf = t.get(3).map(|x| *x == "1").unwrap_or(true);
+                let (peer_id, peer_addr) = (self.nodes[i].id, self.nodes[i].addr);
+                let group = self.nodes[j].group.clone();
+                let network = self.nodes[j].network.clone();
+                let mut tracker = std::mem::take(&mut self.nodes[j].tracker);
+                self.nodes[i].reached.store(false, Ordering::SeqCst);
+                self.nodes[i].gate_fetch.store(true, Ordering::SeqCst);
+                let h = rt.spawn(async move {
+                    let r = tmo(verif::repair_peer(group, network, &mut tracker, peer_id, peer_addr, rf)).await;
+                    (tracker, r)
+                });
+                let reached = self.nodes[i].reached.clone();
+                rt.block_on(async {
+                    let mut waited = 0;
+                    while !reached.load(Ordering::SeqCst) && !h.is_finished() && waited < 4000 {
+                        tokio::time::sleep(Duration::from_millis(1)).await;
+                        waited += 1;
+                    }
+                });
+                let state = if self.nodes[i].reached.load(Ordering::SeqCst) { "fetching" } else if h.is_finished() { "finished" } else { "stuck" };
+                self.nodes[j].split = Some(h);
+                format!("begun {}", state)
+            },
+            "repair-end" => {
+                // repair-end <j> <i>: the gate opens, the fetch reads node i's store AS IT IS NOW, the exchange completes
+                use std::sync::atomic::Ordering;
+                let (j, i) = (u(1), u(2));
+                self.nodes[i].gate_fetch.store(false, Ordering::SeqCst);
+                self.nodes[i].gate.notify_one();
+                let h = self.nodes[j].split.take().expect("repair in progress");
+                let (tracker, r) = rt.block_on(async { h.await.expect("join") });
+                self.nodes[j].tracker = tracker;
+                match r {
+                    None => "timeout".into(),
+                    Some(Err(e)) => format!("err {}", e.to_string().split_whitespace().take(4).collect::<Vec<_>>().join("_")),
+                    Some(Ok(rep)) => {
+                        let mut rep = rep;
+                        rep.sort();
+                        if rep.is_empty() { "skipped".into() } else { format!("synced {}", rep.iter().map(|(k, m, r)| format!("{}:m{}:r{}", k, m, r)).collect::<Vec<_>>().join(",")) }
+                    },
+                }
             },
             "repairm" => {
                 // repairm <j>: one round of the PRODUCTION loop of node j's poller (`repair_members`) over all other nodes as its live
